@@ -118,6 +118,11 @@ fn lexical_wellformed(files: &BTreeMap<String, String>) -> Result<String, String
                 i += 1; continue;
             }
             match c {
+                ';' if matches!(stack.last(), Some(('[', _)) | Some(('(', _))) => {
+                    // inside `[..]` / `(..)` a `;` is only legal in a for-header; the generated files have none in type positions
+                    let line_text: String = text.lines().nth(line - 1).unwrap_or("").to_string();
+                    if !line_text.trim_start().starts_with("for ") && !line_text.trim_start().starts_with("for(") { return Err(format!("{}:{} `;` inside brackets (Rust array syntax `[T; N]` leaked?): `{}`", f, line, line_text.trim().chars().take(120).collect::<String>())); }
+                }
                 '(' | '[' | '{' => stack.push((c, line)),
                 ')' | ']' | '}' => { let want = match c { ')' => '(', ']' => '[', _ => '{' }; match stack.pop() { Some((o, _)) if o == want => {}, other => return Err(format!("{}:{} unbalanced `{}` (open: {:?})", f, line, c, other)) } }
                 ':' if cs.get(i + 1) == Some(&':') => return Err(format!("{}:{} Rust path syntax `::` leaked", f, line)),
@@ -130,6 +135,19 @@ fn lexical_wellformed(files: &BTreeMap<String, String>) -> Result<String, String
             i += 1;
         }
         if let Some((o, l)) = stack.pop() { return Err(format!("{}:{} `{}` never closed", f, l, o)); }
+        // type-argument lists: on lines that carry a signature type, `<` and `>` balance (arrows `=>` aside, strings removed)
+        for (ln, l) in text.lines().enumerate() {
+            let t = l.trim_start();
+            if t.starts_with("//") || t.starts_with('*') || t.starts_with("/*") { continue; }
+            if !(l.contains("Promise<") || l.contains("listen<") || l.contains("CommandHooks<") || l.contains("Channel<") || l.contains("Record<")) { continue; }
+            let mut depth = 0i32; let mut q: Option<char> = None; let mut prev = ' ';
+            for ch in l.chars() {
+                if let Some(x) = q { if ch == x && prev != '\\' { q = None; } prev = ch; continue; }
+                match ch { '"' | '\'' | '`' => q = Some(ch), '<' => depth += 1, '>' if prev != '=' => { depth -= 1; if depth < 0 { break; } } _ => {} }
+                prev = ch;
+            }
+            if depth != 0 { return Err(format!("{}:{} unbalanced type-argument brackets in `{}`", f, ln + 1, l.trim().chars().take(120).collect::<String>())); }
+        }
     }
     Ok("ok".into())
 }
@@ -392,6 +410,7 @@ fn main() {
         src.push_str(&format!("#[tauri::command]\npub fn shapes({}) -> u32 {{ 0 }}\n", shapes.iter().map(|n| format!("{}: u32", n)).collect::<Vec<_>>().join(", ")));
         src.push_str("#[derive(Serialize, Deserialize)]\npub struct Request { pub id: u32 }\n#[derive(Serialize, Deserialize)]\npub struct Channel2 { pub id: u32 }\npub mod dto { use serde::{Serialize, Deserialize}; #[derive(Serialize, Deserialize)] pub struct Window { pub title: String } }\n");
         src.push_str("#[tauri::command]\npub fn user_types_named_like_injected(request: Request, channel: Channel2, pane: crate::dto::Window, other: u32) -> u32 { 0 }\n");
+        src.push_str("#[tauri::command(rename_all = \"snake_case\")]\npub fn macro_snake(user_name: String, retry_count: u32, on_event: Channel<u32>, app: tauri::AppHandle) -> u32 { 0 }\n#[tauri::command(async, rename_all = \"camelCase\")]\npub fn macro_camel(user_name: String) -> u32 { 0 }\n#[command(rename_all = \"snake_case\")]\npub fn bare_macro_snake(user_name: String) -> u32 { 0 }\n#[tauri::command(async)]\npub fn macro_plain(user_name: String) -> u32 { 0 }\n");
         src.push_str("#[tauri::command]\npub fn opt_paths(plain: Option<u32>, std_path: std::option::Option<u32>, core_path: core::option::Option<String>, abs_path: ::std::option::Option<bool>, required: u32) -> u32 { 0 }\n");
         src.push_str("#[tauri::command]\npub fn r#move(first_arg: String, r#type: u32, on_event: Channel<u32>) -> u32 { 0 }\n");
         let dir = root.join("inject/src");
@@ -486,6 +505,18 @@ fn main() {
                 if mode == "zod" && c.contains("onEvent") { return Err("commands.ts re-attaches the channel under `onEvent` although the configured case is snake_case".into()); }
                 Ok(format!("{:?}", keys))
             });
+            for (obj, attr, want) in [("MacroSnakeParams", "#[tauri::command(rename_all = \"snake_case\")]", vec!["on_event", "retry_count", "user_name"]), ("MacroCamelParams", "#[tauri::command(async, rename_all = \"camelCase\")]", vec!["userName"]),
+                                      ("BareMacroSnakeParams", "#[command(rename_all = \"snake_case\")]", vec!["user_name"]), ("MacroPlainParams", "#[tauri::command(async)]", vec!["userName"])] {
+                rep.case("invoke_keys_follow_the_command_macro_case", &format!("{} {} mode={}", attr, obj, mode), &|| {
+                    let files = generate(&dir, &root.join(format!("inject/out_{}", mode)), mode)?;
+                    let t = files.get("types.ts").ok_or("no types.ts")?;
+                    let mut keys = object_keys(t, obj, mode == "zod").ok_or(format!("UNPARSED: {} not found", obj))?;
+                    if mode == "zod" { let head = format!("export interface {} extends", obj); if let Some(st) = t.find(&head) { let blk = &t[st..st + t[st..].find("\n}").unwrap_or(t.len() - st)]; for k in ["on_event", "onEvent"] { if blk.contains(k) { keys.push(k.to_string()); } } } }
+                    keys.sort();
+                    if keys != want { return Err(format!("keys {:?}; with {} Tauri reads the arguments as {:?}", keys, attr, want)); }
+                    Ok(format!("{:?}", keys))
+                });
+            }
             rep.case("invoke_keys_follow_tauri_camel_case", &format!("fn shapes({}) mode={}", shapes.join(", "), mode), &|| {
                 let files = generate(&dir, &root.join(format!("inject/out_{}", mode)), mode)?;
                 let t = files.get("types.ts").ok_or("no types.ts")?;
@@ -585,6 +616,13 @@ fn main() {
         // other container attributes whose names merely start like rename_all
         src.push_str("#[derive(Serialize, Deserialize)]\n#[serde(rename_all_fields = \"camelCase\")]\npub enum FieldsOnly { FastPath, SlowPath }\n");
         enums.push(("FieldsOnly".to_string(), vec!["FastPath".to_string(), "SlowPath".to_string()]));
+        src.push_str("#[derive(Serialize, Deserialize)]\n#[command(rename_all = \"kebab-case\")]\n#[clap(rename_all = \"SCREAMING_SNAKE_CASE\")]\npub struct CliArgs { pub log_level: u32, pub data_dir: String }\n");
+        structs.push(("CliArgs".to_string(), vec![("log_level".to_string(), false), ("data_dir".to_string(), false)]));
+        src.push_str("#[derive(Serialize, Deserialize)]\n#[serde(rename_all = \"camelCase\")]\n#[command(rename_all = \"snake_case\")]\npub struct CliArgs2 { pub window_title: String }\n");
+        structs.push(("CliArgs2".to_string(), vec![("windowTitle".to_string(), false)]));
+        src.push_str("#[derive(Serialize, Deserialize)]\n#[command(rename_all = \"kebab-case\")]\npub enum CliSub { FastScan, DeepScan }\n");
+        enums.push(("CliSub".to_string(), vec!["FastScan".to_string(), "DeepScan".to_string()]));
+        cmd_params.push("ca: CliArgs, ca2: CliArgs2, cs: CliSub".to_string());
         src.push_str("#[derive(Serialize, Deserialize)]\n#[serde(deny_unknown_fields, bound = \"\", rename_all_fields = \"SCREAMING_SNAKE_CASE\", rename_all = \"kebab-case\")]\npub enum Both { FastPath, SlowPath }\n");
         enums.push(("Both".to_string(), vec!["fast-path".to_string(), "slow-path".to_string()]));
         cmd_params.push("fo: FieldsOnly, bo: Both".to_string());
@@ -701,6 +739,7 @@ fn main() {
             ("c:user:login", "app.emit(\"c:user:login\", 1u32).ok();"), ("CUserLogin", "app.emit(\"CUserLogin\", 1u32).ok();"), ("c-user-login2", "app.emit(\"c-user-login2\", 1u32).ok();"),
             // functions carrying cfg / other attributes and qualifiers
             ("n-closure", ""), ("n-async-block-in-call", ""), ("n-unsafe-block", ""), ("n-if-let", ""), ("n-else-if", ""), ("n-while-let", ""), ("n-match-guard", ""), ("n-block-expr", ""), ("n-paren", ""), ("n-async-await", ""),
+            ("z-sync-status", ""), ("z-tags", ""), ("t-typed-late-init", ""), ("t-typed-late-init-2", ""),
             ("g-letter-in-name", ""), ("g-letter-in-name-2", ""), ("v-typed-first", ""), ("v-untyped-after-typed", ""),
             ("t-typed-vec-new", ""), ("t-typed-default", ""), ("t-typed-method", ""), ("t-typed-none", ""), ("t-typed-from", ""),
             ("f-cfg-not-test", ""), ("f-cfg-feature", ""), ("f-cfg-any", ""), ("f-attrs", ""), ("f-async-unsafe", ""), ("f-generic-payload", ""), ("f-private", ""),
@@ -739,6 +778,13 @@ fn main() {
             pub fn typed_first(app: &tauri::AppHandle, item: Player) { app.emit(\"v-typed-first\", item).ok(); }\n\
             pub fn untyped_after(app: &tauri::AppHandle) { let item = make_item(); app.emit(\"v-untyped-after-typed\", item).ok(); }\n\
             fn make_item() -> u32 { 0 }\n\
+            #[derive(Serialize, Deserialize, Clone)]\npub struct SyncStarted { pub at: u32 }\n#[derive(Serialize, Deserialize, Clone)]\npub struct SyncFinished { pub report: SyncReport }\n#[derive(Serialize, Deserialize, Clone)]\npub struct SyncReport { pub files: u32 }\n\
+            #[derive(Serialize, Deserialize, Clone, PartialEq, Eq, Hash, PartialOrd, Ord)]\npub struct TagOnlyInSets { pub name: String }\n\
+            pub fn sync_a(app: &tauri::AppHandle, started: SyncStarted) { app.emit(\"z-sync-status\", started).ok(); }\n\
+            pub fn sync_b(app: &tauri::AppHandle, finished: SyncFinished) { app.emit(\"z-sync-status\", finished).ok(); }\n\
+            pub fn tags_a(app: &tauri::AppHandle, tags: Vec<TagOnlyInSets>) { app.emit(\"z-tags\", tags).ok(); }\n\
+            pub fn tags_b(app: &tauri::AppHandle, tags: std::collections::BTreeSet<TagOnlyInSets>) { app.emit(\"z-tags\", tags).ok(); }\n\
+            pub fn late_init(app: &tauri::AppHandle, flag: bool) { let status: Player; if flag { status = Player { id: 1 }; } else { status = Player { id: 2 }; } app.emit(\"t-typed-late-init\", status.clone()).ok(); let count: u32; count = 3; app.emit(\"t-typed-late-init-2\", count).ok(); }\n\
             pub fn typed_lets(app: &tauri::AppHandle, state: Holder) {\n\
                 let queue: Vec<Player> = Vec::new(); app.emit(\"t-typed-vec-new\", &queue).ok();\n\
                 let fallback: Player = Default::default(); app.emit(\"t-typed-default\", fallback.clone()).ok();\n\
@@ -764,12 +810,12 @@ fn main() {
         for mode in ["none", "zod"] {
             let files = generate(&dir, &root.join(format!("emits/out_{}", mode)), mode);
             rep.case("generated_files_are_lexically_wellformed", &format!("project=emits mode={}", mode), &|| lexical_wellformed(files.as_ref().map_err(|e| e.clone())?));
-            rep.case("type_references_resolve", &format!("project=emits mode={}", mode), &|| references_resolve(files.as_ref().map_err(|e| e.clone())?, &["Player", "Holder", "ScanReport", "ReportLine", "Ticket"]));
+            rep.case("type_references_resolve", &format!("project=emits mode={}", mode), &|| references_resolve(files.as_ref().map_err(|e| e.clone())?, &["Player", "Holder", "ScanReport", "ReportLine", "Ticket", "SyncStarted", "SyncFinished", "SyncReport", "TagOnlyInSets"]));
             rep.case("mentioned_project_types_are_declared", &format!("project=emits mode={}", mode), &|| {
                 let files = files.as_ref().map_err(|e| e.clone())?;
                 let exp = exports_of(files.get("types.ts").ok_or("no types.ts")?);
-                for n in ["Player", "ScanReport", "ReportLine", "Ticket"] { if !exp.contains(n) && !exp.contains(&format!("{}Schema", n)) { return Err(format!("{} is reachable from an event payload but types.ts does not declare it", n)); } }
-                types_module_is_closed(files, &["Player", "ScanReport", "ReportLine", "Ticket"])
+                for n in ["Player", "ScanReport", "ReportLine", "Ticket", "SyncStarted", "SyncFinished", "SyncReport", "TagOnlyInSets"] { if !exp.contains(n) && !exp.contains(&format!("{}Schema", n)) { return Err(format!("{} is the payload type of an emit site (or reachable from one) but types.ts does not declare it", n)); } }
+                types_module_is_closed(files, &["Player", "ScanReport", "ReportLine", "Ticket", "SyncStarted", "SyncFinished", "SyncReport", "TagOnlyInSets"])
             });
             rep.case("declared_function_names_are_legal", &format!("project=emits mode={}", mode), &|| declared_names_legal(files.as_ref().map_err(|e| e.clone())?));
             rep.case("payload_types_follow_the_declarations", &format!("project=emits mode={}", mode), &|| {
@@ -780,7 +826,8 @@ fn main() {
                     ("p-vec-struct", "types.Player[]"), ("p-lifetime-opt", "types.Player | null"), ("p-lifetime-vec", "string[]"), ("a-ref-payload", "boolean"), ("a-stmt", "number"), ("f-generic-payload", "unknown"),
                     ("n-if-let", "unknown"), ("n-while-let", "unknown"), ("n-match-guard", "unknown"), ("n-closure", "number"),
                     ("r-mixed", "unknown"), ("r-repeat", "number"),
-                    ("g-letter-in-name", "types.ScanReport"), ("g-letter-in-name-2", "types.Ticket"), ("v-typed-first", "types.Player"), ("v-untyped-after-typed", "unknown")];
+                    ("g-letter-in-name", "types.ScanReport"), ("g-letter-in-name-2", "types.Ticket"), ("v-typed-first", "types.Player"), ("v-untyped-after-typed", "unknown"),
+                    ("t-typed-late-init", "types.Player"), ("t-typed-late-init-2", "number"), ("z-sync-status", "unknown"), ("z-tags", "types.TagOnlyInSets[]")];
                 for (name, ty) in want {
                     let needle = format!(">('{}',", name);
                     let p = ev.find(&needle).ok_or(format!("no listener subscribed to '{}'", name))?;
@@ -1124,7 +1171,8 @@ fn main() {
             pub fn mark_a(app: &tauri::AppHandle, at: Timestamp) {{ app.emit(\"account:marked\", at).ok(); }}\n\
             pub fn mark_b(app: &tauri::AppHandle, at: u64) {{ app.emit(\"account:marked\", at).ok(); }}\n\
             pub fn mark_c(app: &tauri::AppHandle, id: Uuid, name: String) {{ app.emit(\"account:named\", id).ok(); app.emit(\"account:named\", name).ok(); }}\n\
-            #[derive(Serialize, Deserialize, Clone)]\npub struct Stamped {{ pub at: ext::Stamp, pub all: Vec<ext::Stamp> }}\n\
+            #[derive(Serialize, Deserialize, Clone)]\npub struct Stamped {{ pub at: ext::Stamp, pub all: Vec<ext::Stamp>, pub by: HashMap<String, Option<ext::Stamp>>, pub span: Span, pub spans: Vec<Span> }}\n\
+            #[derive(Serialize, Deserialize, Clone)]\npub struct Span {{ pub secs: u32 }}\n\
             #[tauri::command]\npub fn stamps(s: Stamped, first: ext::Stamp, on_stamp: Channel<ext::Stamp>, on_many: Channel<Vec<Option<ext::Stamp>>>) -> Result<Vec<ext::Stamp>, String> {{ Ok(vec![]) }}\n", HDR);
         let dir = root.join("mapped/src");
         write_files(&dir, &[("lib.rs".to_string(), src)]);
@@ -1135,7 +1183,7 @@ fn main() {
             cfg.project_path = dir.to_string_lossy().to_string();
             cfg.output_path = out.to_string_lossy().to_string();
             cfg.validation_library = mode.to_string();
-            cfg.type_mappings = Some([("Uuid".to_string(), "string".to_string()), ("Timestamp".to_string(), "number".to_string()), ("ext::Stamp".to_string(), "number".to_string())].into_iter().collect());
+            cfg.type_mappings = Some([("Uuid".to_string(), "string".to_string()), ("Timestamp".to_string(), "number".to_string()), ("ext::Stamp".to_string(), "number".to_string()), ("ext::Span".to_string(), "number".to_string())].into_iter().collect());
             let res: Result<BTreeMap<String, String>, String> = generate_from_config(&cfg).map_err(|e| format!("generate_from_config returned Err: {}", e)).and_then(|_| {
                 let mut m = BTreeMap::new();
                 for e in fs::read_dir(&out).map_err(|e| e.to_string())?.flatten() { if e.path().is_file() { m.insert(e.file_name().to_string_lossy().to_string(), fs::read_to_string(e.path()).unwrap_or_default()); } }
@@ -1147,7 +1195,7 @@ fn main() {
                     if !f.ends_with(".ts") { continue; }
                     for (ln, l) in text.lines().enumerate() {
                         if l.trim_start().starts_with("//") || l.trim_start().starts_with('*') || l.trim_start().starts_with("/*") { continue; }
-                        for n in ["Uuid", "Timestamp", "Stamp", "ext"] {
+                        for n in ["Uuid", "Timestamp", "Stamp", "ext"] { // `Span` is a project type of its own: the path-keyed mapping ext::Span does not concern it
                             let mut from = 0;
                             while let Some(p) = l[from..].find(n) {
                                 let a = from + p; let b = a + n.len();
@@ -1161,7 +1209,24 @@ fn main() {
                 }
                 Ok("ok".into())
             });
-            rep.case("type_references_resolve", &format!("project=mapped mode={}", mode), &|| references_resolve(res.as_ref().map_err(|e| e.clone())?, &["Account", "Stamped"]));
+            rep.case("type_references_resolve", &format!("project=mapped mode={}", mode), &|| references_resolve(res.as_ref().map_err(|e| e.clone())?, &["Account", "Stamped", "Span"]));
+            rep.case("mapped_fields_have_the_target_schema", &format!("project=mapped mode={}", mode), &|| {
+                let files = res.as_ref().map_err(|e| e.clone())?;
+                let t = files.get("types.ts").ok_or("no types.ts")?;
+                // (struct, key, text the declaration / schema of the key must be)
+                let want: Vec<(&str, &str, &str, &str)> = vec![("Stamped", "at", "number", "z.coerce.number()|z.number()"), ("Stamped", "all", "number[]", "z.array(z.coerce.number())|z.array(z.number())"),
+                    ("Stamped", "span", "Span", "SpanSchema"), ("Stamped", "spans", "Span[]", "z.array(SpanSchema)"), ("Account", "id", "string", "z.string()|z.coerce.string()")];
+                for (sname, key, plain, zods) in want {
+                    if mode == "zod" {
+                        let got = zod_field(t, sname, key).ok_or(format!("UNPARSED: {}Schema.{}", sname, key))?;
+                        if !zods.split('|').any(|z| got == z) { return Err(format!("{}.{}: schema `{}`, the mapping / the project type requires one of `{}`", sname, key, got, zods)); }
+                    } else {
+                        let got = object_entries(t, sname, false).ok_or(format!("UNPARSED: {}", sname))?.into_iter().find(|(k, _)| k == key).map(|(_, v)| v).ok_or(format!("{} has no key {}", sname, key))?;
+                        if got != plain { return Err(format!("{}.{}: declared `{}`, expected `{}`", sname, key, got, plain)); }
+                    }
+                }
+                Ok("ok".into())
+            });
             rep.case("mapped_payloads_merge_as_their_targets", &format!("project=mapped mode={}", mode), &|| {
                 let files = res.as_ref().map_err(|e| e.clone())?;
                 let ev = files.get("events.ts").ok_or("no events.ts")?;
@@ -1193,6 +1258,26 @@ fn main() {
                 }
                 Ok("ok".into())
             });
+        }
+    }
+    // ============================================================ C07 (known finding): a struct with a type parameter, used with arguments, is a project-defined serde struct too
+    {
+        let src = format!("{}#[derive(Serialize, Deserialize, Clone)]\npub struct Entry {{ pub id: u32 }}\n\
+            #[derive(Serialize, Deserialize, Clone)]\npub struct Page<T> {{ pub items: Vec<T>, pub total: u32 }}\n\
+            #[tauri::command]\npub fn first_page() -> Page<Entry> {{ todo!() }}\n", HDR);
+        let dir = root.join("generic_structs/src");
+        write_files(&dir, &[("lib.rs".to_string(), src)]);
+        for mode in ["none", "zod"] {
+            let files = generate(&dir, &root.join(format!("generic_structs/out_{}", mode)), mode);
+            rep.case("reachable_generic_structs_are_declared", &format!("project=generic_structs mode={}", mode), &|| {
+                let files = files.as_ref().map_err(|e| e.clone())?;
+                let exp = exports_of(files.get("types.ts").ok_or("no types.ts")?);
+                for n in ["Page", "Entry"] {
+                    if !exp.contains(n) && !exp.contains(&format!("{}Schema", n)) { return Err(format!("{} is a serde struct reachable from command `first_page` but types.ts does not declare it", n)); }
+                }
+                Ok("ok".into())
+            });
+            rep.case("generated_files_are_lexically_wellformed", &format!("project=generic_structs mode={}", mode), &|| lexical_wellformed(files.as_ref().map_err(|e| e.clone())?));
         }
     }
     // ============================================================ C09 / C07 / C10 / C01: a type shared by an event, a parameter and a field; foreign and project types in one field; regeneration
@@ -1315,10 +1400,11 @@ fn main() {
     {
         // dependencies going back and forth between two files (acyclic): Address <- Customer <- Order, Order -> Address
         let catalog = format!("{}use crate::people::Customer;\n#[derive(Serialize, Deserialize, Clone)]\npub struct Address {{ pub street: String }}\n#[derive(Serialize, Deserialize, Clone)]\npub struct Order {{ pub customer: Customer, pub ship_to: Address, pub notes: Vec<Note> }}\n#[derive(Serialize, Deserialize, Clone)]\npub struct Note {{ pub by: Customer }}\n#[tauri::command]\npub fn order(id: u32) -> Order {{ todo!() }}\n", HDR);
+        let roster = format!("{}#[derive(Serialize, Deserialize, Clone, PartialEq, Eq, Hash)]\npub enum Weekday {{ Mon, Tue }}\n#[derive(Serialize, Deserialize, Clone, PartialEq, Eq, Hash)]\npub enum OnlyAsKey {{ A, B }}\n#[derive(Serialize, Deserialize, Clone)]\npub struct Roster {{ pub by_day: HashMap<Weekday, Vec<String>>, pub by_key: std::collections::BTreeMap<OnlyAsKey, u32> }}\n#[tauri::command]\npub fn roster(first: Weekday) -> Roster {{ todo!() }}\n", HDR);
         let people = format!("{}use crate::catalog::Address;\n#[derive(Serialize, Deserialize, Clone)]\npub struct Customer {{ pub address: Address, pub zone: Zone }}\n#[derive(Serialize, Deserialize, Clone)]\npub enum Zone {{ North, South }}\n", HDR);
         let dir = root.join("pingpong/src");
-        write_files(&dir, &[("catalog.rs".to_string(), catalog), ("people.rs".to_string(), people)]);
-        let tys = ["Address", "Order", "Note", "Customer", "Zone"];
+        write_files(&dir, &[("catalog.rs".to_string(), catalog), ("people.rs".to_string(), people), ("a_roster.rs".to_string(), roster)]);
+        let tys = ["Address", "Order", "Note", "Customer", "Zone", "Weekday", "OnlyAsKey", "Roster"];
         for mode in ["none", "zod"] {
             let files = generate(&dir, &root.join(format!("pingpong/out_{}", mode)), mode);
             rep.case("mentioned_project_types_are_declared", &format!("project=pingpong mode={}", mode), &|| types_module_is_closed(files.as_ref().map_err(|e| e.clone())?, &tys));
@@ -1358,6 +1444,51 @@ fn main() {
                 for n in ["User", "Comment", "Thread"] { if !exp.contains(n) && !exp.contains(&format!("{}Schema", n)) { return Err(format!("{} is not declared", n)); } }
                 Ok("ok".into())
             });
+        }
+    }
+    // ============================================================ C01 / C05 / C07 / C02: arrays and slices are sequences
+    {
+        let src = format!("{}use tauri::Emitter;\nuse tauri::ipc::Channel;\n#[derive(Serialize, Deserialize, Clone)]\npub struct Cell {{ pub id: u32 }}\n#[derive(Serialize, Deserialize, Clone)]\npub struct OnlyInArray {{ pub id: u32 }}\n#[derive(Serialize, Deserialize, Clone)]\npub struct OnlyInParam {{ pub id: u32 }}\n\
+            #[derive(Serialize, Deserialize, Clone)]\npub struct Grid {{ pub cells: [[Cell; 3]; 3], pub key: [u8; 32], pub pairs: Vec<[(String, OnlyInArray); 2]>, pub opt: Option<[bool; 2]> }}\n\
+            #[tauri::command]\npub fn grid(app: tauri::AppHandle, seed: [u8; 4], ch: Channel<[Cell; 2]>, names: &[String], extra: [OnlyInParam; 1]) -> Result<[Grid; 2], String> {{ todo!() }}\n", HDR);
+        let dir = root.join("arrays/src");
+        write_files(&dir, &[("lib.rs".to_string(), src)]);
+        let tys = ["Cell", "OnlyInArray", "OnlyInParam", "Grid"];
+        for mode in ["none", "zod"] {
+            let files = generate(&dir, &root.join(format!("arrays/out_{}", mode)), mode);
+            rep.case("generated_files_are_lexically_wellformed", &format!("project=arrays mode={}", mode), &|| lexical_wellformed(files.as_ref().map_err(|e| e.clone())?));
+            rep.case("mentioned_project_types_are_declared", &format!("project=arrays mode={}", mode), &|| types_module_is_closed(files.as_ref().map_err(|e| e.clone())?, &tys));
+            rep.case("type_references_resolve", &format!("project=arrays mode={}", mode), &|| references_resolve(files.as_ref().map_err(|e| e.clone())?, &tys));
+            rep.case("field_types_follow_the_table", &format!("project=arrays mode={}", mode), &|| {
+                let files = files.as_ref().map_err(|e| e.clone())?;
+                let t = files.get("types.ts").ok_or("no types.ts")?;
+                let want: Vec<(&str, &str, &str)> = vec![("cells", "Cell[][]", "z.array(z.array(CellSchema))"), ("key", "number[]", "z.array(z.coerce.number())"), ("pairs", "[string, OnlyInArray][][]", "z.array(z.array(z.tuple([z.string(), OnlyInArraySchema])))")];
+                for (k, ts, zs) in want {
+                    if mode == "zod" {
+                        let got = zod_field(t, "Grid", k).ok_or(format!("GridSchema has no key {}", k))?;
+                        if got != zs { return Err(format!("Grid.{}: schema `{}`, serde writes a sequence: `{}`", k, got, zs)); }
+                    } else {
+                        let line = t.lines().find(|l| l.trim_start().starts_with(&format!("{}:", k))).ok_or(format!("Grid has no key {}", k))?;
+                        let got = line.trim().trim_start_matches(&format!("{}:", k)).trim().trim_end_matches(';');
+                        if got != ts { return Err(format!("Grid.{}: `{}`, serde writes a sequence: `{}`", k, got, ts)); }
+                    }
+                }
+                Ok("ok".into())
+            });
+        }
+    }
+    // ============================================================ C01: foreign generic wrappers (Arc, Box, Rc — not translated by the tool) must at least stay well formed
+    {
+        let src = format!("{}use tauri::Emitter;\n#[derive(Serialize, Deserialize, Clone)]\npub struct Item {{ pub id: u32 }}\n\
+            #[tauri::command]\npub fn shared_items(app: tauri::AppHandle) -> std::sync::Arc<Vec<Item>> {{ let all: std::sync::Arc<Vec<Item>> = todo!(); app.emit(\"items:changed\", all.clone()).ok(); all }}\n\
+            #[tauri::command]\npub fn boxed() -> Result<std::rc::Rc<HashMap<String, Item>>, String> {{ todo!() }}\n\
+            #[tauri::command]\npub fn cell() -> Option<std::sync::Arc<std::sync::Mutex<Vec<Option<Item>>>>> {{ None }}\n\
+            #[tauri::command]\npub fn wrapped(p: Wrapped<Vec<crate::Item>, self::Item>) -> Wrapped<crate::models::Item, (u8, super::Item)> {{ todo!() }}\n", HDR);
+        let dir = root.join("pointers/src");
+        write_files(&dir, &[("lib.rs".to_string(), src)]);
+        for mode in ["none", "zod"] {
+            let files = generate(&dir, &root.join(format!("pointers/out_{}", mode)), mode);
+            rep.case("generated_files_are_lexically_wellformed", &format!("project=pointers mode={}", mode), &|| lexical_wellformed(files.as_ref().map_err(|e| e.clone())?));
         }
     }
     let _ = fs::remove_dir_all(&root);
